@@ -543,6 +543,176 @@ pub fn confirm_any(sim: &str, v: &Value) -> Result<bool, String> {
     match sim {
         "hashsim" => confirm_hashsim(v),
         "cellsim" => confirm_cellsim(v),
+        "ossim" => confirm_ossim(v),
         other => Err(format!("unknown sim {other}")),
     }
+}
+
+// ---------------------------------------------------------------------------------------------
+// ossim-based properties (C18, and the import clause of C03)
+
+fn confirm_ossim(v: &Value) -> Result<bool, String> {
+    let out = proc::call(&["single", "ossim"], &v["scenario"])?;
+    let class = v["class"].as_str().unwrap_or("");
+    Ok(out["violation"].as_array().map_or(false, |a| a[0].as_str() == Some(class)))
+}
+
+pub fn check_ossim(property: &str, tier: &str) -> i32 {
+    let t0 = Instant::now();
+    let seed = verif_seed();
+    let thorough = tier == "thorough";
+    let par = workers();
+    let boots = if thorough { 4 } else { 2 };
+    let shards = (par / boots).max(1);
+    let runs: u64 = if property == "C03" { 0 } else if thorough { 2_000_000 } else { 48_000 };
+    let validate: u64 = if property == "C03" { 0 } else if thorough { 20_000 } else { 150 };
+    let nw = (boots * shards) as u64;
+    let mut jobs = Vec::new();
+    for b in 0..boots {
+        for s in 0..shards {
+            // C03 enumerates the whole case list once per boot seed; C18 shards its runs over all workers
+            let (shard, nshards) = if property == "C03" { (s as u64, shards as u64) } else { ((b * shards + s) as u64, nw) };
+            jobs.push((
+                vec!["worker".to_string(), "ossim".to_string()],
+                json!({"property": property, "tier": tier, "seed": seed, "boot_seed": hashsim::boot_seed_n(seed, b), "shard": shard, "shards": nshards, "runs": runs, "validate_runs": validate}),
+            ));
+        }
+    }
+    let results = proc::call_many(jobs, par);
+    let mut harness_errors = Vec::new();
+    let mut candidates: Vec<Value> = Vec::new();
+    let mut n = 0u64;
+    let mut events = 0u64;
+    let mut triples: BTreeSet<String> = BTreeSet::new();
+    let mut faults: BTreeMap<String, u64> = BTreeMap::new();
+    let mut natural: BTreeMap<String, u64> = BTreeMap::new();
+    let mut counters: BTreeMap<String, u64> = BTreeMap::new();
+    let mut samples = Vec::new();
+    let mut cases_total = 0u64;
+    let add = |m: &mut BTreeMap<String, u64>, v: &Value| {
+        if let Some(o) = v.as_object() {
+            for (k, c) in o {
+                *m.entry(k.clone()).or_default() += c.as_u64().unwrap_or(0);
+            }
+        }
+    };
+    for r in results {
+        match r {
+            Err(e) => harness_errors.push(json!({"what": "worker failed", "error": e})),
+            Ok(v) => {
+                n += v["runs"].as_u64().unwrap_or(0);
+                events += v["events"].as_u64().unwrap_or(0);
+                cases_total = cases_total.max(v["cases_total"].as_u64().unwrap_or(0));
+                for t in v["triples"].as_array().cloned().unwrap_or_default() {
+                    triples.insert(t.as_str().unwrap().to_string());
+                }
+                add(&mut faults, &v["faults_fired"]);
+                add(&mut natural, &v["natural_errors"]);
+                for k in ["torn_effects", "torn_seen_by_later_read", "fault_right_after_create", "lang_route_rejected", "distinct_final_states", "validated_against_real_fs", "table_runs"] {
+                    *counters.entry(k.to_string()).or_default() += v[k].as_u64().unwrap_or(0);
+                }
+                for h in v["harness_errors"].as_array().cloned().unwrap_or_default() {
+                    harness_errors.push(h);
+                }
+                for c in v["violations"].as_array().cloned().unwrap_or_default() {
+                    candidates.push(c);
+                }
+                if samples.len() < 4 {
+                    for s in v["samples"].as_array().cloned().unwrap_or_default().into_iter().take(1) {
+                        samples.push(s);
+                    }
+                }
+            }
+        }
+    }
+    let mut confirmed = Vec::new();
+    let mut per_class: BTreeMap<String, usize> = BTreeMap::new();
+    let mut seen: BTreeSet<String> = BTreeSet::new();
+    let mut unconfirmed = 0;
+    for c in candidates {
+        let class = c["class"].as_str().unwrap_or("").to_string();
+        let mut c = c;
+        c["sim"] = json!("ossim");
+        let is_seq = c["scenario"]["sim"].as_str() == Some("ossim");
+        if is_seq {
+            let k = per_class.entry(class.clone()).or_default();
+            if *k >= 3 {
+                continue;
+            }
+            *k += 1;
+            match proc::call(&["minimise", "ossim"], &json!({"scenario": c["scenario"], "class": class})) {
+                Ok(m) if m["reproduced"].as_bool() == Some(true) => {
+                    c["original_scenario"] = c["scenario"].clone();
+                    c["scenario"] = m["scenario"].clone();
+                    c["detail"] = m["detail"].clone();
+                    c["log"] = m["log"].clone();
+                    c["minimise_trials"] = m["trials"].clone();
+                }
+                Ok(_) => {}
+                Err(e) => harness_errors.push(json!({"what": "minimiser failed", "error": e})),
+            }
+            let calls: Vec<String> = c["scenario"]["calls"].as_array().map(|cs| cs.iter().map(|x| format!("{}({})", x["func"].as_str().unwrap_or(""), x["args"])).collect()).unwrap_or_default();
+            c["subject_id"] = json!(format!("{} faults={}", calls.join("; "), c["scenario"]["faults"]));
+        }
+        let key = format!("{}|{}", class, c["subject_id"].as_str().unwrap_or(""));
+        if !seen.insert(key) || confirmed.len() >= 12 {
+            continue;
+        }
+        match confirm_ossim(&c) {
+            Ok(true) => confirmed.push(c),
+            Ok(false) => {
+                unconfirmed += 1;
+                harness_errors.push(json!({"what": "candidate did not reproduce in a fresh process", "candidate": c}));
+            }
+            Err(e) => harness_errors.push(json!({"what": "replay failed", "error": e})),
+        }
+    }
+    let wall = t0.elapsed().as_secs_f64();
+    let fault_total: u64 = faults.values().sum();
+    let (level, rule, exhaustive) = if property == "C03" {
+        (
+            "fault_enumeration",
+            "Complete enumeration of: 6 program forms containing `import \"p\"` x 16 states of the file p (absent, directory, empty, valid module, syntax error, type error, constant folding fails, non-UTF-8, undefined name, misplaced break/return, unterminated string, oversized literal, importing q) x, when p imports q, 15 states of q x {no fault, each of 18 errno kinds on the first read, 4 errno kinds on the second read}. Each case: Code::parse under catch_unwind against the simulated FS; oracle: Ok or Err, never a panic; a failed first read surfaces as Error::IO of that kind; an accepted program executes without panic and a valid module yields exactly its top-level names. distinct_nontrivial = distinct (p state, q state, fault kind) combinations reached. ONLY this clause of C03 is covered: totality over arbitrary text is input enumeration and outside this technique family.",
+            true,
+        )
+    } else {
+        (
+            "exploration",
+            "One run = seeded initial file tree (files incl. non-UTF-8, directories, nesting) + 1-8 calls of std.fs.* / std.io.cgetline / print / print_array over a 12-path universe (missing, file-as-directory, NUL, over-long, './', '//'), each through the host API or a generated SimpleSL program, with an explicit fault plan (18 errno kinds, before-effect or torn) keyed by OS-call index; fault-free and fault-injecting runs alternate. Every 16th run also calls every other export once with seeded boundary arguments (workload only: the pure-function part of C18 gets just this sample from this technique). Oracles per call: no panic, value in declared result type, OS failure => struct{error_code,msg} with the OS error's kind and text, success value agrees with the OS result, exactly one OS call with arguments in their documented roles; afterwards every path is read back through the library and compared with the tree. distinct_nontrivial = distinct (function, file-system state class, fault kind) triples reached.",
+            false,
+        )
+    };
+    let coverage = json!({
+        "evaluations": n,
+        "distinct_nontrivial": triples.len(),
+        "rule": rule,
+        "samples": samples,
+        "simulated_time_events": events,
+        "runs_per_hour": (n as f64 / wall * 3600.0) as u64,
+        "seeds_per_hour": (n as f64 / wall * 3600.0) as u64,
+        "fault_kinds_fired": faults,
+        "faults_fired_total": fault_total,
+        "state_dependent_errors_produced_by_model": natural,
+        "probes": counters,
+        "cases_enumerated": cases_total,
+        "boot_seeds": boots,
+        "worker_processes": boots * shards,
+        "unconfirmed_candidates": unconfirmed,
+        "real_vs_stub": {"real": ["#[export] glue", "From<io::Result<T>> / From<io::Error> for Variable", "TypeOf-derived signatures", "create_call / call instruction", "LocalVariables::load (import)", "parser + checker"], "stub": ["std::fs -> in-memory tree with Linux errno semantics (validated against real std::fs on fault-free sequences: see probes.validated_against_real_fs)", "io::stdin -> scripted", "println! -> captured"]},
+        "exhaustive": exhaustive,
+    });
+    finish(Report {
+        property: property.to_string(),
+        tier: tier.to_string(),
+        seed,
+        level,
+        coverage,
+        assumptions: vec![
+            "the in-memory FS answers like Linux std::fs for the path universe used (checked against the real file system in a scratch directory on the fault-free sequences; count in probes.validated_against_real_fs)".into(),
+            "injected errno kinds are ones std can return on Linux; torn effects are modelled for write, copy, remove_dir_all and create_dir_all only".into(),
+        ],
+        violations: confirmed,
+        harness_errors,
+        wall_s: wall,
+    })
 }
